@@ -327,6 +327,9 @@ func rulesC13(c *Ctx) {
 					s, isS := ast.Unparen(x).(*ast.SelectorExpr)
 					return ok && op == token.GTR && a.Val && isS && s.Sel.Name == "KeepAlive" && isZ && z == 0
 				}), side.typ+".Connect:keepalive-only-when-configured", f, fg.Node(v), "keep-alive is started only under KeepAlive > 0 (guards: %s)", atomsString(guards))
+				if nl, what := fg.gateLeaves(v, true); true {
+					c.Check(nl == 1, side.typ+".Connect:keepalive-whenever-configured", f, fg.Node(v), "KeepAlive > 0 is the only test in front of startKeepalive (%d: %s): a session for which it is never started is never closed, however dead its peer", nl, what)
+				}
 			}
 			c.Pin(side.typ+".Connect startKeepalive", n, 1)
 			cl := c.Fn(pM, side.conn, "Close")
